@@ -4999,6 +4999,7 @@ _trait_setstate(trait_object *trait, PyObject *args)
     PyObject *ignore;
     PyObject *py_post_setattr, *py_validate, *default_value, *delegate_name,
         *delegate_prefix, *handler, *obj_dict;
+    PyObject *shim_validate = NULL, *shim_post_setattr = NULL;
     int default_value_type;
     unsigned int flags;
     int getattr_index, setattr_index, post_setattr_index, validate_index,
@@ -5040,6 +5041,31 @@ _trait_setstate(trait_object *trait, PyObject *args)
         return NULL;
     }
 
+    /*
+       Backwards compatibility hack for old pickles. Versions of Traits
+       prior to 6.0 replaced callables with a long value (-1).
+
+       This backwards compatibility shim can be removed once we're
+       sure that we don't need to handle pickles generated by Traits
+       versions < 6.0.
+    */
+    if (PyLong_Check(py_validate)) {
+        py_validate = shim_validate =
+            PyObject_GetAttrString(handler, "validate");
+        if (py_validate == NULL) {
+            return NULL;
+        }
+    }
+    if (PyLong_Check(py_post_setattr)) {
+        py_post_setattr = shim_post_setattr =
+            PyObject_GetAttrString(handler, "post_setattr");
+        if (py_post_setattr == NULL) {
+            Py_XDECREF(shim_validate);
+            return NULL;
+        }
+    }
+    /* End backwards compatibility hack */
+
     trait->py_post_setattr = py_post_setattr;
     trait->py_validate = py_validate;
     trait->default_value_type = default_value_type;
@@ -5058,24 +5084,6 @@ _trait_setstate(trait_object *trait, PyObject *args)
     trait->delegate_attr_name =
         delegate_attr_name_handlers[delegate_attr_name_index];
 
-    /*
-       Backwards compatibility hack for old pickles. Versions of Traits
-       prior to 6.0 replaced callables with a long value (-1).
-
-       This backwards compatibility shim can be removed once we're
-       sure that we don't need to handle pickles generated by Traits
-       versions < 6.0.
-    */
-    if (PyLong_Check(trait->py_validate)) {
-        trait->py_validate =
-            PyObject_GetAttrString(trait->handler, "validate");
-    }
-    if (PyLong_Check(trait->py_post_setattr)) {
-        trait->py_post_setattr =
-            PyObject_GetAttrString(trait->handler, "post_setattr");
-    }
-    /* End backwards compatibility hack */
-
     Py_INCREF(trait->py_post_setattr);
     Py_INCREF(trait->py_validate);
     Py_INCREF(trait->default_value);
@@ -5083,6 +5091,10 @@ _trait_setstate(trait_object *trait, PyObject *args)
     Py_INCREF(trait->delegate_prefix);
     Py_INCREF(trait->handler);
     Py_INCREF(trait->obj_dict);
+
+    /* (the attributes looked up by the compatibility shim are new references) */
+    Py_XDECREF(shim_validate);
+    Py_XDECREF(shim_post_setattr);
 
     Py_INCREF(Py_None);
     return Py_None;
